@@ -615,8 +615,10 @@ class Machine:
         if bb <= fr.bb and self.loop_key is not None:
             key = self.loop_key(self, fr, bb)
             if key is not None:
-                if key in self.loop_seen: raise PathAbort('lasso', f'{fr.fn.key} bb{bb} state repeats without progress')
-                self.loop_seen.add(key)
+                if key in self.loop_seen:
+                    self.cycle = (self.loop_seen[key], getattr(self, 'nd', 0))      # environment answers consumed by one round of the cycle
+                    raise PathAbort('lasso', f'{fr.fn.key} bb{bb} state repeats without progress')
+                self.loop_seen[key] = getattr(self, 'nd', 0)
         fr.bb = bb; fr.ip = 0
         ops = fr.fn.compiled.get(bb)
         if ops is None: ops = self.compile_block(fr.fn, bb)
